@@ -26,6 +26,7 @@ RULE = ("every entry point (%d ops of goexec/total.go, each calling the decoder 
         % (len(ENTRIES), 15))
 EXHAUSTIVE = False
 MAX_REPORTS = 40
+MODEL_OPTIONAL = True   # the model side of the tot.* ops is optional (see oracle)
 ASSUMPTIONS = ["a call is a hang when it runs > 3 s or the heap exceeds 768 MiB (goexec watchdog), confirmed by one re-run in a fresh process",
                "memory/time bounds are observed, not proved (DESIGN section 10); read-only = input snapshot compared after the call",
                "cli/parsefile.go (a main package) is not driven"]
